@@ -415,7 +415,8 @@ def gen_case(rng: random.Random, P: Dict[str, Any]) -> Case:
             td = mk(s, f"done.invoke.{iid}", "invDone", 0, forward_only=not P.get("loops", False),
                     targetless_ok=True)
             td.guard = None
-            if fails or rng.random() < 0.5:
+            unhandled = fails and P.get("p_unhandled_fail", 0.0) and rng.random() < P["p_unhandled_fail"]
+            if not unhandled and (fails or rng.random() < 0.5):
                 te = mk(s, f"error.platform.{iid}", "invError", 0,
                         forward_only=not P.get("loops", False), targetless_ok=True)
                 te.guard = None
